@@ -58,3 +58,13 @@ pub fn after_call(ctx: &mut Ctx, res: &CallResult, what: &str, props: &[&'static
     ctx.trace_str(res.out.class());
     panic_guard(ctx, res, what) && note_abort(ctx, res, props)
 }
+
+/// Event expectations look only at the events the statement is about: those whose name
+/// occurs in `expected` or in `also` (needed when nothing is expected).  Events with other
+/// names (a refactoring may add some) are not the properties' business.
+pub fn events_match(actual: &[crate::host::Ev], expected: &[crate::host::Ev], also: &[&str]) -> bool {
+    let mut names: Vec<String> = expected.iter().map(|e| e.name()).collect();
+    names.extend(also.iter().map(|s| s.to_string()));
+    let relevant: Vec<&crate::host::Ev> = actual.iter().filter(|e| names.contains(&e.name())).collect();
+    relevant.len() == expected.len() && relevant.iter().zip(expected.iter()).all(|(a, b)| **a == *b)
+}
